@@ -110,6 +110,11 @@ def check_property(prop, tier, seed):
                 mine['%s/safety' % fn] = dict(fn=fn, sec='body', label='safety', clauses=['no overflow/underflow, no reachable panic!/unwrap/expect failure, every callee precondition holds, indices in bounds'])
         # errors that map to an obligation nobody declared (unlabelled ghost text): attribute to the function
         for oid, es in errs_by_ob.items():
+            if oid.endswith('/callee_wf'):
+                f = es[0]['fn']
+                if f in info and (prop == 'C09' or prop == 'C01' or prop in info[f]['props']):
+                    mine[oid] = dict(fn=f, sec='body', label='callee_wf', clauses=['the representation invariant required by a callee holds at the call'])
+                continue
             if oid not in res['obligations'] and not oid.endswith('/safety'):
                 f = es[0]['fn']
                 if f in info and (prop in info[f]['props']):
